@@ -296,33 +296,48 @@ def _mk_item(src, head, open_idx, close_idx):
     return d
 
 
-def locate(src, selector):
-    """selector: 'impl X for Y > fn len' -> item dict."""
-    lo, hi = 0, len(src.sig)
-    item = None
-    for part in selector.split(" > "):
-        part = part.strip()
-        m = re.match(r"^(.*?)(?:\s+#(\d+))?$", part)
-        part, ordinal = m.group(1), int(m.group(2) or 1)
-        if part.startswith("macro_rules!"):
-            kind, name = "macro_rules", part[len("macro_rules!"):].strip()
-        elif part.startswith("impl<") or part.startswith("impl "):
-            kind, name = "impl", part[4:]
-        else:
-            kind, _, name = part.partition(" ")
-        if kind not in KEYWORDS_ITEM:
-            raise LostAnchor(f"bad selector part '{part}'")
-        items = find_items(src, lo, hi, kind, name.strip())
-        if kind == "const":
-            pass
-        if len(items) < ordinal:
-            raise LostAnchor(f"{src.name}: '{part}' (#{ordinal}) not found (selector '{selector}')")
-        if ordinal == 1 and len(items) > 1 and not m.group(2):
-            raise LostAnchor(f"{src.name}: '{part}' is ambiguous ({len(items)} matches); add #n")
-        item = items[ordinal - 1]
-        if item["open"] is not None:
-            lo, hi = item["open"] + 1, item["close"]
-    return item
+def locate(src, selector, lo=0, hi=None):
+    """selector: 'impl X for Y > fn len' -> item dict.  `#n` picks the n-th match,
+    `#*` means: whichever of the matching blocks contains the rest of the selector."""
+    if hi is None:
+        hi = len(src.sig)
+    parts = selector.split(" > ")
+    part = parts[0].strip()
+    m = re.match(r"^(.*?)(?:\s+#(\d+|\*))?$", part)
+    part, ordinal = m.group(1), m.group(2)
+    if part.startswith("macro_rules!"):
+        kind, name = "macro_rules", part[len("macro_rules!"):].strip()
+    elif part.startswith("impl<") or part.startswith("impl "):
+        kind, name = "impl", part[4:]
+    else:
+        kind, _, name = part.partition(" ")
+    if kind not in KEYWORDS_ITEM:
+        raise LostAnchor(f"bad selector part '{part}'")
+    items = find_items(src, lo, hi, kind, name.strip())
+    rest = " > ".join(parts[1:])
+    if ordinal == "*":
+        found = []
+        for it in items:
+            if it["open"] is None:
+                continue
+            try:
+                found.append(locate(src, rest, it["open"] + 1, it["close"]))
+            except LostAnchor:
+                pass
+        if len(found) != 1:
+            raise LostAnchor(f"{src.name}: '{selector}': {len(found)} matches among {len(items)} '{part}' blocks")
+        return found[0]
+    n = int(ordinal or 1)
+    if len(items) < n:
+        raise LostAnchor(f"{src.name}: '{part}' (#{n}) not found (selector '{selector}')")
+    if not ordinal and len(items) > 1:
+        raise LostAnchor(f"{src.name}: '{part}' is ambiguous ({len(items)} matches); add #n or #*")
+    item = items[n - 1]
+    if not rest:
+        return item
+    if item["open"] is None:
+        raise LostAnchor(f"{src.name}: '{part}' has no body to descend into")
+    return locate(src, rest, item["open"] + 1, item["close"])
 
 
 # --------------------------------------------------------------------------
